@@ -126,6 +126,13 @@ def obligations(tier, rng):
                 two = len(variables(f)) > 1
                 out.append(ob('C16', 'ct', 'ct/nested-past/%s' % text(f), f=f, ns=[2, 2] if two else [3], ext=[1, 1] if two else [1],
                               max_paths=60000, wall=(300 if quick else 1500)))
+    # bounds written with units (the horizon is a duration, whatever the notation)
+    for txt, f in [('(x) unless[2000ms,4000] (y)', ('unless_t', X, Y, 2, 4)), ('(x) unless[1,2s] (y)', ('unless_t', X, Y, 1, 2)), ('(x) until[1s,2000ms] (y)', ('until_t', X, Y, 1, 2)),
+                   ('eventually[1000ms,2000](x)', ('eventually_t', X, 1, 2)), ('always[0ms,2000](once[1s,1000ms](x))', ('always_t', ('once_t', X, 1, 1), 0, 2))]:
+        g = ('raw', txt, f)
+        h = hor(g)
+        for e in (2, 4):
+            out.append(ob('C16', 'dt', 'dt/units/%s/N1=%d+%d' % (txt, h + 2, e), f=g, N1=h + 2, ext=e))
     # ONE specification object evaluating first the trace and then its extension (the usual way of monitoring a growing log)
     for f in f1:
         if quick and not (refsem.has_future(f) or f[0] in ('once', 'historically', 'since', 'prev', 'rise', 'once_t', 'since_t')):
